@@ -63,6 +63,79 @@ def rand_unicode(rng):
     return "".join(out)
 
 
+INTS = ["0", "1", "12", "99", "999999", "2147483647", "2147483648", "-2147483647", "-2147483648", "4294967296", "9223372036854775807",
+        "9223372036854775808", "99999999999999999999"]
+
+
+def boundary_cases(rng, thorough):
+    """Inputs aimed at the arithmetic on machine integers and at the search loops: every numeric field of every date pattern at
+    the i32/i64 boundaries, durations at the limits of the date arithmetic (exact and float-valued), powers of powers of units,
+    non-integer / negative / zero powers in conversion targets, factorize on moderately complex dimensionalities, and nesting
+    chains up to the 500 characters of the property."""
+    out = []
+    for v in INTS:
+        a = v.lstrip("-")
+        out += ["#%s-01-01#" % v, "#2020-%s-01#" % a, "#2020-01-%s#" % a, "#2020-01-01 %s:00#" % a, "#2020-01-01 00:%s#" % a,
+                "#2020-01-01 00:00:%s#" % a, "#2020-01-01 00:00 +%s:00#" % a, "#2020-01-01 00:00 -%s:00#" % a, "#2020-01-01 00:00 +%s#" % a,
+                "#2020-01-01 00:00 +00:%s#" % a, "#2020-01-01T00:00:00 -%s:%s#" % (a, a), "#%s jan 1 bc#" % v, "#%s jan 1 ad#" % v,
+                "#jan %s, 2020#" % a, "#jan 1, %s bce#" % v, "#%s-W%s#" % (a, a), "#2020-%s#" % a, "#--%s-%s#" % (a, a), "#%s:%s:%s am#" % (a, a, a),
+                "#%s:00 pm +%s:00#" % (a, a), "#00:00 +%s:%s#" % (a, a), "#2020-01-01 00:00:00.%s#" % a, "#mon jan %s 00:00 %s#" % (a, a),
+                "#%s january %s 1:00 am bc#" % (v, a), "#2020-01-01# + %s s" % v, "#2020-01-01# - %s days" % a, "now + %s years" % v,
+                "#%s-01-01# -> \"UTC\"" % v, "#2020-01-01 00:00 +%s:00# -> +%s:00" % (a, a), "now -> +%s:00" % a, "now -> -%s:%s" % (a, a)]
+    for x in ["9223372036854775", "9223372036854776", "9223372036854775.807", "9223372036854775.808", "9223372036854775807", "1e15", "1e16",
+              "1e18", "1e19", "1e300", "292277026596", "0.000000001", "1e-30"]:
+        for sign in "+-":
+            out += ["now %s %s s" % (sign, x), "now %s hypot(%s, 0) s" % (sign, x), "#2020-01-01# %s %s s" % (sign, x),
+                    "#2020-01-01# %s hypot(%s, 0) ms" % (sign, x), "#2020-01-01# %s sqrt(%s^2) s" % (sign, x), "now %s %s years" % (sign, x),
+                    "now %s exp(%s) s" % (sign, x[:4]), "#2020-01-01# %s (0 - hypot(%s, 0)) s" % (sign, x)]
+        out += ["%s s -> year;day;hour;min;s" % x, "hypot(%s, 0) s" % x, "hypot(%s, 0) s -> hour;s" % x]
+    bases = ["0", "(-8)", "4", "(1|4)", "2", "(-1)", "m", "(m^2)", "(2 m)", "(0 m)", "(m/s)"]
+    exps = ["0.5", "-0.5", "1.5", "-1.5", "0.3", "(2|3)", "0", "-1", "(1|2)", "(-1|2)", "2", "(1|3)", "1e9", "-2147483647", "sqrt(4)", "ln(2)"]
+    for b in bases:
+        for e in exps:
+            t = "%s^%s" % (b, e)
+            out += ["1 -> %s" % t, "1 m -> %s m" % t, "1 -> 1/(%s - 2)" % t, "1 -> 1/(%s - 1)" % t, "9 m^2 -> %s" % t, "1 kg -> %s g" % t,
+                    "1 -> %s %s" % (t, t), "3 m -> 2 ft + %s m" % t, "1 -> (%s)^%s" % (t, e)]
+    units = ["m", "s", "kg", "'q'", "(m/s)", "A"]
+    for u in units:
+        for k in ["1000000", "2147483647", "65536", "46341", "-2147483647", "3037000500"]:
+            out += ["((%s^%s)^%s)^%s" % (u, k, k, k), "(((%s^%s)^%s)^%s)^%s" % (u, k, k, k, k), "%s^%s * %s^%s" % (u, k, u, k), "(%s^%s %s)^2" % (u, k, u),
+                    "1/(%s^%s %s)" % (u, k, u), "sqrt(%s^%s)" % (u, k), "(%s^%s)^(1|2)" % (u, k), "%s^%s + 1" % (u, k), "%s^%s -> %s" % (u, k, u),
+                    "%s^%s %s^%s / %s^%s" % (u, k, u, k, u, k), "(%s^%s)^-1 %s^%s" % (u, k, u, k), "factorize %s^%s" % (u, k), "units for %s^%s" % (u, k),
+                    "1 -> %s^%s" % (u, k), "hypot(%s^%s, %s^%s)" % (u, k, u, k), "(%s^%s) mod (%s^%s)" % (u, k, u, k)]
+    # factorize: moderately complex dimensionalities (complexity score 8..16); exponential search shows from about 12
+    named = ["J^2", "J^3", "(m/s)^5", "ohm", "ohm^2", "kg m^2 / s^3 A^2", "W N", "farad henry", "tesla^2", "m^6 / s^6", "kg^2 m^2 / s^5 K", "gray sievert / s"]
+    out += ["factorize " + n for n in named]
+    for _ in range(60 if thorough else 25):
+        dims = rng.sample(["kg", "m", "s", "A", "K"], rng.randint(2, 4))
+        budget = rng.randint(8, 14) - len(dims)
+        ex = {d: 1 for d in dims}
+        for _ in range(max(0, budget - len(dims))):
+            ex[rng.choice(dims)] += 1
+        out.append("factorize " + " ".join("%s^%d" % (d, ex[d] * rng.choice([1, -1])) for d in dims))
+    # nesting chains up to the 500 characters of the property
+    for n in (120, 240, 499):
+        out += ["-" * (n - 1) + "1", "(" * (n // 2) + "1" + ")" * (n // 2), "sqrt(" * (n // 5) + "4" + ")" * (n // 5), "1" + "^2" * (n // 2),
+                "2^" * (n // 2) + "1", "1" + "/(1+1" * (n // 6) + ")" * (n // 6), "+-" * (n // 2) + "m", "1" + " per 1" * (n // 6), "1" + "|2" * (n // 2),
+                "a" + " of a" * (n // 5), "1" + " -> m" * (n // 5), "degC " * (n // 5) + "1", "1" + " mod 2" * (n // 6), "m" + " m" * (n // 2),
+                "1" + ";1" * (n // 2), "1 -> " + "m;" * (n // 3) + "m", "x = " * (n // 4) + "1", "'" * n, "#" * n, "\\" * n, "1e" * (n // 2),
+                "0x" + "F" * (n - 2), "1" * n, "1." + "1" * (n - 2), "1e-" + "9" * 20, "." * n, "H" + "2O" * (n // 2), "C" * n, "[" * n, "{" * n]
+    # display suffixes of a conversion with every boundary argument, in the long and the fused spelling
+    for n in ["0", "1", "2", "36", "37", "40", "64", "99", "200", "255", "256", "65536", "-1", "99999999999", "4294967298"]:
+        out += ["255 -> base%s" % n, "255 -> base %s" % n, "1|3 -> digits %s" % n, "1|3 -> digits base%s" % n, "1|3 -> digits %s base %s" % (n, n),
+                "1e100 -> sci base%s" % n, "1e100 -> sci base %s" % n, "1 -> eng base%s" % n, "1|7 -> frac base %s" % n, "1|7 -> fraction base%s" % n,
+                "255 -> hex%s" % n, "255 -> oct%s" % n, "255 -> bin%s" % n, "1 -> digits%s" % n, "255 to base%s" % n, "255 in base %s" % n,
+                "1|3 -> digits %s m" % n, "1|3 m -> digits %s base %s ft" % (n, n), "now -> base%s" % n, "water -> base %s" % n]
+    # Unicode characters that are "numeric" or "digits" for some of the standard predicates, in every numeric position
+    for x in ["\u00b2", "\u00bd", "\uff11", "\u0663", "\u09e9", "\u2167", "\u2460", "\U0001d7d9", "\u2075", "\u2085", "\u0e53", "\u3007", "\u00b9\u00b2"]:
+        out += ["#2020-01-01 10:00 +1%s1#" % x, "#2020-01-01 10:00 +%s1:00#" % x, "#2020-01-01 10:00 +0%s0#" % x, "#20%s0-01-01#" % x, "#2020-%s1-01#" % x,
+                "#1%s:00#" % x, "#jan %s, 2020#" % x, "#10:00 +%s%s%s%s#" % (x, x, x, x), "#2020-01-01 10:00:0%s.%s#" % (x, x), "1%s" % x, x, "1.%s" % x, "1e%s" % x,
+                "0x%s" % x, "1|%s" % x, "m^%s" % x, "%s m" % x, "1 -> digits %s" % x, "1 -> base %s" % x, "1 -> base%s" % x, "now -> +0%s:30" % x,
+                "H%sO" % x, "C%sH%s" % (x, x), "%s%s" % (x, x), "1 << %s" % x, "\\u%s" % x, "'%s'" % x, "%sm" % x, "1_%s" % x]
+    return list(dict.fromkeys(q for q in out if len(q) <= 500))
+
+
+
 def decide(run, texts, leg, shards, timeout_ms):
     import time
     t0 = time.time()
@@ -114,7 +187,9 @@ def run(tier, seed):
     thorough = tier == "thorough"
     run.cov["rule"] = ("token soup enumerated by TLC (every sequence of <= 2 lexemes over ~100 lexemes, <= 3 over a 46-lexeme core; thorough: "
                        "<= 3 over all, <= 4 over a 22-lexeme core), seeded mutations of 40 valid queries (delete / duplicate / swap / insert a "
-                       "character incl. non-ASCII), random Unicode strings; each input lexed, parsed, evaluated and rendered three ways in an "
+                       "character incl. non-ASCII), random Unicode strings, and a boundary family (every numeric field of every date pattern at the i32/i64 limits, "
+                       "durations at the limits of date arithmetic incl. float-valued ones, powers of powers of units, non-integer / negative / zero "
+                       "powers in conversion targets, factorize of dimensionalities of complexity 8..16, nesting chains up to 500 characters); each input lexed, parsed, evaluated and rendered three ways in an "
                        "isolated worker on a long-lived bundled context. non-trivial = distinct input (all are distinct); an input is expensive "
                        "iff Pipeline.tla's CostBits exceeds Theta = 60000 bits.")
     run.assumptions += ["per-input watchdog 30 s (quick 10 s) in a release-profile build with overflow checks; a timeout of a cheap input is re-run alone with 3x the limit before it is believed",
@@ -162,6 +237,9 @@ def run(tier, seed):
         sweep = sweep[:2500]
     decide(run, sweep, "magnitude", shards, tmo)
     run.sample({"leg": "magnitude", "input": sweep[0]})
+    bnd = boundary_cases(rng, thorough)
+    decide(run, bnd, "boundary", shards, tmo)
+    run.sample({"leg": "boundary", "input": bnd[len(bnd) // 2]})
     uni = [rand_unicode(rng) for _ in range(20000 if thorough else 2000)]
     decide(run, uni, "unicode", shards, tmo)
     run.sample({"leg": "unicode", "input": uni[0]})
